@@ -138,19 +138,24 @@ def cycSearch (fx : Fixes) (spreads : AL (List String)) : Nat → String → AL 
     | none => acc
     | some inners => cycLoop fx (cycSearch fx spreads fuel) path inners acc
 
+def cycFuel (spreads : AL (List String)) : Nat := spreads.foldl (fun n p => n + p.2.length + 1) 2
+
+/-- one iteration of `for outer, inner_spreads in flat_spreads` in `leave_document`:
+    state = (errors, `cyclic`, IndexError?) -/
+def cycStep (fx : Fixes) (spreads : AL (List String)) (st : Nat × List String × Bool) (outer : String) :
+    Nat × List String × Bool :=
+  let acc := cycSearch fx spreads (cycFuel spreads) outer [] []
+  match AL.get? acc outer with
+  | none => st
+  | some path =>
+    let cyclic := outer :: st.2.1
+    match path.getLast? with
+    | none => (st.1, cyclic, true)
+    | some l => if cyclic.contains l then (st.1, cyclic, st.2.2) else (st.1 + 1, cyclic, st.2.2)
+
 /-- (errors, IndexError?) of `leave_document` -/
 def cycErrors (fx : Fixes) (spreads : AL (List String)) : Nat × Bool :=
-  let fuel := spreads.foldl (fun n p => n + p.2.length + 1) 2
-  let step (st : Nat × List String × Bool) (outer : String) : Nat × List String × Bool :=
-    let acc := cycSearch fx spreads fuel outer [] []
-    match AL.get? acc outer with
-    | none => st
-    | some path =>
-      let cyclic := outer :: st.2.1
-      match path.getLast? with
-      | none => (st.1, cyclic, true)
-      | some l => if cyclic.contains l then (st.1, cyclic, st.2.2) else (st.1 + 1, cyclic, st.2.2)
-  let r := (AL.keys spreads).foldl step (0, [], false)
+  let r := (AL.keys spreads).foldl (cycStep fx spreads) (0, [], false)
   (r.1, r.2.2)
 
 /-! ### ValuesOfCorrectTypeChecker -/
